@@ -160,6 +160,53 @@ func c20SessionStdin(ls []string) string {
 	return b.String()
 }
 
+// c20FreshStdin: the fresh session a line is compared against. It starts with a
+// warm-up marker line so that whatever the REPL prints once at start-up (a
+// banner) is not mistaken for part of the line's response; the line under test
+// is still the first line that does anything.
+func c20FreshStdin(line string) string {
+	return KwPrint + " \"#W#\";\n" + line + "\n" + c20Marker(0) + "\n"
+}
+
+// c20FreshSeg extracts the response to the line under test from a fresh session.
+func c20FreshSeg(r sim.Result) (c20Seg, bool) {
+	var so strings.Builder
+	for _, e := range r.Events {
+		if e.Kind == "OUT" {
+			so.WriteString(e.Data)
+		}
+	}
+	w := strings.Index(so.String(), "#W#\n")
+	if w < 0 {
+		return c20Seg{}, false
+	}
+	// re-split after the warm-up marker: drop the events before it
+	cut := w + len("#W#\n")
+	var ev []sim.Event
+	off := 0
+	for _, e := range r.Events {
+		if e.Kind == "OUT" {
+			a, b := off, off+len(e.Data)
+			off = b
+			if b <= cut {
+				continue
+			}
+			if a < cut {
+				e.Data = e.Data[cut-a:]
+			}
+			ev = append(ev, e)
+		} else if e.Kind == "ERR" {
+			if off >= cut {
+				ev = append(ev, e)
+			}
+		}
+	}
+	r2 := r
+	r2.Events = ev
+	sg, f, _ := c20Split(r2, 1)
+	return sg[0], f[0]
+}
+
 func c20Case(pool []c20Line, deliveries []sim.Config, roles []string, tag string) *Case {
 	ax := &C20Expect{}
 	var ls []string
@@ -183,7 +230,7 @@ func c20Case(pool []c20Line, deliveries []sim.Config, roles []string, tag string
 		idx := len(cs.Runs)
 		seen[l.text] = idx
 		ax.FreshOf = append(ax.FreshOf, idx)
-		cs.Runs = append(cs.Runs, Run{Role: "fresh:" + l.name, Cfg: replCfg(c20SessionStdin([]string{l.text}))})
+		cs.Runs = append(cs.Runs, Run{Role: "fresh:" + l.name, Cfg: replCfg(c20FreshStdin(l.text))})
 	}
 	var cl []string
 	for _, l := range pool {
@@ -243,8 +290,8 @@ func c20Systematic(tier string) []*Case {
 	for _, e := range c20Echo {
 		cs := &Case{Prop: "C20", Kind: "echo", Sig: "echo:" + e, Program: e + ";"}
 		cs.Runs = []Run{
-			{Role: "bare", Cfg: replCfg(c20SessionStdin([]string{e + ";"}))},
-			{Role: "print", Cfg: replCfg(c20SessionStdin([]string{KwPrint + " " + e + ";"}))},
+			{Role: "bare", Cfg: replCfg(c20FreshStdin(e + ";"))},
+			{Role: "print", Cfg: replCfg(c20FreshStdin(KwPrint + " " + e + ";"))},
 		}
 		cs.Aux = &Aux{C20: &C20Expect{Echo: true}}
 		out = append(out, cs)
@@ -448,12 +495,12 @@ func c20Eval(cs *Case, ctx *EvalCtx) []Violation {
 				return vs
 			}
 		}
-		sa, fa, _ := c20Split(obs[0].Res, 1)
-		sb, fb, _ := c20Split(obs[1].Res, 1)
-		if !fa[0] || !fb[0] {
+		sa, fa := c20FreshSeg(obs[0].Res)
+		sb, fb := c20FreshSeg(obs[1].Res)
+		if !fa || !fb {
 			add(-1, "session-ended", cs.Sig, "marker missing in an echo session")
-		} else if sa[0].Out != sb[0].Out || sa[0].Err != "" || sb[0].Err != "" {
-			add(-1, "echo", cs.Sig, fmt.Sprintf("bare expression answered %q (stderr %q), দেখাও answered %q (stderr %q)", sa[0].Out, sa[0].Err, sb[0].Out, sb[0].Err))
+		} else if sa.Out != sb.Out || sa.Err != "" || sb.Err != "" {
+			add(-1, "echo", cs.Sig, fmt.Sprintf("bare expression answered %q (stderr %q), দেখাও answered %q (stderr %q)", sa.Out, sa.Err, sb.Out, sb.Err))
 		}
 		if ctx.Stats != nil {
 			ctx.Stats.Count("echo_cases", 1)
@@ -476,7 +523,8 @@ func c20Eval(cs *Case, ctx *EvalCtx) []Violation {
 			add(ax.FreshOf[i], "never-returns", "by:"+ax.Names[i], fmt.Sprintf("line %q never returns (step budget exceeded)", clip(ax.Lines[i])))
 			continue
 		}
-		sg, f, _ := c20Split(o.Res, 1)
+		sg0, f0 := c20FreshSeg(o.Res)
+		sg, f := []c20Seg{sg0}, []bool{f0}
 		if !f[0] {
 			add(ax.FreshOf[i], "session-ended", "by:"+ax.Names[i], fmt.Sprintf("after line %q the next line got no response (exit=%d returned=%v)", clip(ax.Lines[i]), o.Res.Exit, o.Res.Returned))
 			continue
@@ -538,7 +586,12 @@ func c20Eval(cs *Case, ctx *EvalCtx) []Violation {
 			if !freshOK[i] {
 				continue
 			}
-			if segs[i] != fresh[i] {
+			same := segs[i] == fresh[i]
+			if i == 0 && !same {
+				// the first response of a session may be preceded by start-up output
+				same = segs[i].Err == fresh[i].Err && strings.HasSuffix(segs[i].Out, fresh[i].Out)
+			}
+			if !same {
 				add(r, "response-differs", fmt.Sprintf("line:%s after:%s", ax.Names[i], prev),
 					fmt.Sprintf("[%s] line %d %q answered stdout=%q stderr=%q order=%s; as first line of a fresh session it answers stdout=%q stderr=%q order=%s", role, i, ax.Lines[i], segs[i].Out, segs[i].Err, segs[i].Order, fresh[i].Out, fresh[i].Err, fresh[i].Order))
 				break
